@@ -48,7 +48,9 @@ class C02(Profile):
     prop = "C02"
     name = "C02"
     weights = dict(STRUCT_WEIGHTS, observe=3)
-    owned = ("state_", "reopen_", "alias_view")
+    # unexpected_error: a legal create/set/link/delete call of the quantified history that raises
+    # leaves "the state determined by the calls made" unreachable
+    owned = ("state_", "reopen_", "alias_view", "unexpected_error")
     reopen_introspect = True
     # deletes come mostly in the second half of a run, when trees and link topologies exist
     late_ops = ("delete", "link_remove", "del_metadata")
@@ -445,7 +447,7 @@ class C15(Profile):
     name = "C15"
     weights = {"create_block": 1, "create_array": 5, "set_attr": 14, "data_write": 4, "data_assign": 5,
                "data_append": 3, "data_resize": 2, "data_read": 6, "create_tag": 2, "link_append": 4,
-               "create_feature": 2, "append_dim": 4, "calib_tag_read": 6, "restart": 3}
+               "create_feature": 2, "append_dim": 4, "calib_tag_read": 6, "calib_slice_read": 3, "restart": 3}
     reopen_introspect = False
     never_off = ("restart", "create_array", "set_attr", "data_read")
 
@@ -468,7 +470,7 @@ class C15(Profile):
         k["extreme_rate"] = 0.0
         k["calib_values"] = True
         k["set_kinds"] = ["array"]
-        k["link_owner_kinds"] = ["tag"]
+        k["link_owner_kinds"] = ["tag", "mtag"]
         k["walk_every"] = P.pick(rng, [1, 2])
         k["n_ops"] = rng.randint(10, 40)
         k["vias"] = [0, 1, 4, 5]
@@ -489,6 +491,24 @@ class C15(Profile):
                 {"op": "link_append", "okind": "tag", "o": 0, "list": 0, "t": 0},
                 {"op": "create_feature", "tag": 0, "arr": 0, "lt": P.pick(rng, P.LINK_TYPES)},
             ]
+            if rng.random() < 0.6:
+                # the multi-tag read path: a 1-d signal, positions 0..3 and extents 0..3 (route "cast"
+                # stores arange % 7), one reference and one feature
+                n = rng.randint(1, 4)
+                ops += [
+                    {"op": "create_array", "blk": 0, "name": "sig1", "type": "t", "dtype": P.pick(rng, run.knobs["dtypes"]),
+                     "shape": [rng.randint(5, 9)], "vseed": rng.randrange(1, 1 << 20), "route": "data", "compr": "Auto",
+                     "calib": True},
+                    {"op": "append_dim", "arr": 1, "k": "sample", "interval": 1.0, "label": None, "unit": None, "offset": None},
+                    {"op": "create_array", "blk": 0, "name": "mpos", "type": "t", "dtype": "float64", "shape": [n, 1],
+                     "vseed": 0, "route": "cast", "compr": "Auto"},
+                    {"op": "create_array", "blk": 0, "name": "mext", "type": "t", "dtype": "float64", "shape": [n, 1],
+                     "vseed": 0, "route": "cast", "compr": "Auto"},
+                    {"op": "create_mtag", "blk": 0, "name": "mt", "type": "t", "pos": 2,
+                     "ext": 3 if rng.random() < 0.7 else None},
+                    {"op": "link_append", "okind": "mtag", "o": 0, "list": 0, "t": 1},
+                    {"op": "create_feature", "tag": 1, "arr": 1, "lt": P.pick(rng, P.LINK_TYPES)},
+                ]
         return ops
 
     def next_op(self, run):
